@@ -257,6 +257,14 @@ def gen(ctx, count):
             a = core.gen_formula(rng, c["sig"], 1, 0.0)
             extra = rng.choice([(a, a), (("T",), a), (("|", a, ("!", a)), ("T",))])
             c["base"] = c["base"] + [[len(c["base"]) + 1, extra[0], extra[1]]]
+        if c["sig"] >= 3 and rng.random() < 0.2 and c["base"]:
+            # a programmatically built conditional with a three-member conjunction / disjunction (may become one n-ary connective)
+            j = rng.randrange(len(c["base"]))
+            x, y, z = [("a", a_) if rng.random() < 0.7 else ("!", ("a", a_)) for a_ in rng.sample(range(c["sig"]), 3)]
+            op = rng.choice(["&", "|"])
+            chain = (op, (op, x, y), z)
+            k_, b_, a_ = c["base"][j]
+            c["base"][j] = [k_, chain, a_] if rng.random() < 0.5 else [k_, b_, chain]
         if len(c["base"]) > 5:
             c["base"] = c["base"][:5]
         if answers.classify(c)["status"] != "ok":
